@@ -52,7 +52,7 @@ func genMergeWorkload(w *Tape) *mergeWorkload {
 		Compression: []string{"none", "snappy", "zstd"}[w.Draw(3)],
 		ZstdLevel:   1 + w.Draw(4),
 		FPRate:      []float64{0.4, 0.05, 0.001}[w.Draw(3)],
-		RGRows:      []int{1, 2, 4, 8, 20, 100}[w.Draw(6)],
+		RGRows:      []int{1, 2, 3, 4, 5, 6, 8, 20, 100}[w.Draw(9)], // small limits near the source block sizes: groups fill up mid-way
 		RGBytes:     []int{100, 400, 2000, 1 << 20}[w.Draw(4)],
 		MergeFiles:  w.Range(2, 8),
 		MaxFileSize: []int{600, 3000, 20000, 1 << 30}[w.Draw(4)],
